@@ -137,6 +137,9 @@ pub enum TKind {
 pub struct Model {
     ns: BTreeSet<Id>,
     tables: BTreeMap<Id, TKind>,
+    /// dual mode only: root tables that are no longer in the manifest but whose `<name>.lance` directory is
+    /// still there – the documented directory-listing fallback keeps them visible
+    dir_only: BTreeSet<Id>,
 }
 
 impl Model {
@@ -206,6 +209,10 @@ fn expect(mode: Mode, m: &Model, op: &Op) -> Expect {
         };
     }
     let parent: Id = i[..i.len() - 1].to_vec();
+    if m.dir_only.contains(i) && !matches!(op, Op::CreateNs(_) | Op::DropNs(_)) {
+        // table known only through the directory fallback: what manifest-level calls do with it is undecided
+        return Either("directory-only-table");
+    }
     match op {
         Op::CreateNs(_) => {
             if m.ns.contains(i) {
@@ -249,6 +256,9 @@ fn expect(mode: Mode, m: &Model, op: &Op) -> Expect {
 }
 
 fn apply(m: &mut Model, op: &Op) {
+    if !matches!(op, Op::CreateNs(_) | Op::DropNs(_)) {
+        m.dir_only.remove(op.id());
+    }
     match op {
         Op::CreateNs(i) => {
             m.ns.insert(i.clone());
@@ -728,7 +738,7 @@ async fn observe(ns: &DirectoryNamespace, mode: Mode, m: &Model, universe: &[Id]
                 if s != want_t || dup {
                     t_list_ok = false;
                     out.push(Mismatch {
-                        probe: "list_tables",
+                        probe: if s == want_t { "list_tables-duplicate" } else { "list_tables" },
                         about: p.clone(),
                         what: format!("list_tables({p:?}) = {:?}, model {:?}", resp.tables, want_t),
                     });
@@ -922,11 +932,12 @@ impl Sut for Ns {
 
     fn canon(&self, st: &St) -> u64 {
         let s = format!(
-            "{}|{}|{:?}|{:?}|{:?}|{}",
+            "{}|{}|{:?}|{:?}{:?}|{:?}|{}",
             st.prof.mode.name(),
             st.prof.name,
             st.model.ns,
             st.model.tables,
+            st.model.dir_only,
             top_level(&st.fs),
             st.hidden
         );
@@ -962,6 +973,16 @@ impl Sut for Ns {
             // tentative model: follows the implementation's answer (judged below)
             if accepted {
                 apply(&mut model, &op2);
+                if let (Mode::Dual, Op::Deregister(i)) = (mode, &op2) {
+                    // documented dual-mode behaviour: a root table whose `<name>.lance` directory exists is
+                    // found by directory listing when it is not in the manifest
+                    if let (1, Some(k @ (TKind::Empty | TKind::Data))) = (i.len(), model0.tables.get(i)) {
+                        if !model0.dir_only.contains(i) {
+                            model.tables.insert(i.clone(), *k);
+                            model.dir_only.insert(i.clone());
+                        }
+                    }
+                }
             }
             let mism = observe(&ns, mode, &model, &universe, &mut local_stats).await;
             let t3 = t0.elapsed();
@@ -1026,24 +1047,31 @@ impl Sut for Ns {
             let collides = |x: &Id| model.ns.iter().chain(model.tables.keys()).chain(std::iter::once(op.id())).any(|o| o != x && o.join("$") == x.join("$"));
             let (key, prune) = if mm.probe.ends_with("-paging") || mm.probe.ends_with("-limit") {
                 let why = if mm.what.contains("(limit-exceeded)") { "limit-exceeded" } else if mm.what.contains("(duplicate)") { "duplicate" } else { "missed-no-continuation-token" };
-                (format!("{}/paging/{}/{}", mode.name(), mm.probe.split('-').next().unwrap(), if why == "limit-exceeded" { "limit-ignored" } else { why }), false)
+                if why == "limit-exceeded" {
+                    // more entries than `limit` in one page, but every entry arrives exactly once: the property
+                    // is about completeness of paging, so this is recorded as an observation, not judged
+                    *self.stats.lock().unwrap().entry(format!("observation:{}-page-larger-than-limit", mm.probe.split('-').next().unwrap())).or_insert(0) += 1;
+                    continue;
+                }
+                (format!("paging-{}", why), false)
+            } else if mm.probe == "list_tables-duplicate" && mode == Mode::Dual && mm.about.is_empty() {
+                // same name in the manifest and as a `<name>.lance` directory with another location
+                ("dual-list_tables-repeats-name-found-in-manifest-and-directory".to_string(), true)
             } else if mm.probe == "namespace_exists" && about_is_table_only {
-                (format!("{}/type-confusion/namespace_exists-true-for-table", mode.name()), false)
+                ("type-confusion-missing-object-type-filter".to_string(), false)
             } else if mm.probe == "table_exists" && about_is_ns_only {
-                (format!("{}/type-confusion/table_exists-true-for-namespace", mode.name()), false)
+                ("type-confusion-missing-object-type-filter".to_string(), false)
             } else if same_id_as_ns && (mm.probe.contains("namespace") && (&mm.about == op.id() || mm.about[..] == op.id()[..op.id().len() - 1])) {
-                (format!("{}/type-confusion/{}-replaces-namespace-of-same-id", mode.name(), op.kind()), true)
-            } else if mode == Mode::Dual && matches!(op, Op::Deregister(_)) && accepted && op.id().len() == 1 && !has_shape(op.id(), "sql-injection") && (&mm.about == op.id() || mm.about.is_empty()) {
-                (format!("{}/deregistered-root-table-still-visible-through-directory-listing", mode.name()), true)
+                (format!("{}-overwrites-namespace-of-same-id", op.kind()), true)
             } else if has_shape(op.id(), "sql-injection") {
-                (format!("{}/sql-filter-injection/writes", mode.name()), true)
+                ("sql-filter-injection".to_string(), true)
             } else if has_shape(&mm.about, "sql-injection") {
-                (format!("{}/sql-filter-injection/reads", mode.name()), true)
+                ("sql-filter-injection".to_string(), true)
             } else if mode.has_manifest() && (has_shape(&mm.about, "dollar") || has_shape(op.id(), "dollar")) && (collides(&mm.about) || collides(op.id()) || mm.probe.starts_with("list_")) {
-                (format!("{}/dollar-delimiter-collision", mode.name()), true)
+                ("dollar-delimiter-collision".to_string(), true)
             } else if mode != Mode::Manifest && (has_shape(&mm.about, "non-ascii") || has_shape(&mm.about, "slash") || has_shape(op.id(), "non-ascii") || has_shape(op.id(), "slash")) {
                 let sh = if has_shape(&mm.about, "slash") || has_shape(op.id(), "slash") { "slash" } else { "non-ascii" };
-                (format!("{}/unfaithful-name/{}", mode.name(), sh), true)
+                { let _ = sh; ("unfaithful-name-percent-encoded".to_string(), true) }
             } else {
                 let rel = if &mm.about == op.id() { "self" } else { "other" };
                 (
@@ -1065,13 +1093,13 @@ impl Sut for Ns {
             (Err((c, _)), Expect::Reject(why)) => format!("rejected({why}):{c}"),
             (Ok(()), Expect::Reject(why)) => {
                 let key = if matches!(op, Op::DropNs(_)) && st.model.tables.contains_key(op.id()) && !st.model.ns.contains(op.id()) {
-                    format!("{}/type-confusion/drop_namespace-removes-table", mode.name())
+                    "type-confusion-missing-object-type-filter".to_string()
                 } else if matches!(op, Op::CreateNs(_)) && why == "parent-missing" && st.model.tables.contains_key(&op.id()[..op.id().len() - 1].to_vec()) {
-                    format!("{}/type-confusion/create_namespace-accepts-table-as-parent", mode.name())
+                    "type-confusion-missing-object-type-filter".to_string()
                 } else if has_shape(op.id(), "sql-injection") {
-                    format!("{}/sql-filter-injection/writes", mode.name())
+                    "sql-filter-injection".to_string()
                 } else if has_shape(op.id(), "dollar") || st.model.ns.iter().chain(st.model.tables.keys()).any(|o| o != op.id() && o.join("$") == op.id().join("$")) {
-                    format!("{}/dollar-delimiter-collision", mode.name())
+                    "dollar-delimiter-collision".to_string()
                 } else {
                     format!("{}/accepted/{}/{}/{}", mode.name(), op.kind(), why, shape)
                 };
@@ -1080,7 +1108,8 @@ impl Sut for Ns {
                     "op-class",
                     &key,
                     format!(
-                        "{} {:?} succeeded although the model requires a failure ({why}); model before: ns {:?} tables {:?}{}",
+                        "[{} mode] {} {:?} succeeded although the model requires a failure ({why}); model before: ns {:?} tables {:?}{}",
+                        mode.name(),
                         op.kind(),
                         op.id(),
                         st.model.ns,
@@ -1099,13 +1128,12 @@ impl Sut for Ns {
                     fold_generic = true;
                     violations.push(Violation::new(
                         "op-class",
-                        &format!(
-                            "{}/failed-op-changed-catalog/{}/{}",
-                            mode.name(),
-                            op.kind(),
-                            if matches!(op, Op::DropTable(_)) && st.model.tables.get(op.id()) == Some(&TKind::Registered) { "registered-table-location-missing".to_string() } else { shape.clone() }
-                        ),
-                        format!("{} {:?} returned an error ({}) but the catalog changed: {}", op.kind(), op.id(), short(msg), generic.join(" | ")),
+                        &if matches!(op, Op::DropTable(_)) && st.model.tables.get(op.id()) == Some(&TKind::Registered) {
+                            "failed-drop_table-removed-manifest-row".to_string()
+                        } else {
+                            format!("failed-op-changed-catalog/{}/{}", op.kind(), shape)
+                        },
+                        format!("[{} mode] {} {:?} returned an error ({}) but the catalog changed: {}", mode.name(), op.kind(), op.id(), short(msg), generic.join(" | ")),
                         case.clone(),
                     ));
                 }
@@ -1118,7 +1146,7 @@ impl Sut for Ns {
                 continue;
             }
             if seen_keys.insert(key.clone()) {
-                let v = Violation::new("observe", &key, format!("after {} {:?} ({}): {}", op.kind(), op.id(), if accepted { "ok" } else { "error" }, what), case.clone());
+                let v = Violation::new("observe", &key, format!("[{} mode] after {:?} then {} {:?} ({}): {}", mode.name(), st.hist, op.kind(), op.id(), if accepted { "ok" } else { "error" }, what), case.clone());
                 if prune {
                     violations.push(v);
                 } else {
@@ -1214,9 +1242,9 @@ fn ledger_violations(sut: &Ns) -> Vec<Violation> {
             v.push(Violation::new(
                 "consistent-rejection",
                 &if idv.iter().any(|n| name_shape(n) == "sql-injection") {
-                    format!("{mode}/sql-filter-injection/writes")
+                    "sql-filter-injection".to_string()
                 } else if idv.iter().any(|n| name_shape(n) == "dollar") {
-                    format!("{mode}/dollar-delimiter-collision")
+                    "dollar-delimiter-collision".to_string()
                 } else {
                     format!("{mode}/inconsistent-rejection/{kind}/{}", id_shape(idv))
                 },
